@@ -63,7 +63,11 @@ Ok(r, act, ret) ==
     /\ (Sequential => r.dcalls = CallsOf(NewItems))
 
 \* a call that reports an injected sink failure
+\* (with a concurrent Writer the failing sink call may have happened during an earlier public call)
 Faulted(r) == r.err = "injected" /\ SinkFails
+FlushFaulted(r) == r.err = "injected" /\ FlushFails
+\* C15 is silent about what a caller gets who keeps using a Writer after a failure was reported to him
+AfterFailure == failed /\ UNCHANGED wvars
 
 \* a refused call: error class names the reason, nothing reaches the sink
 Refused(r, act, classes) == r.err \in classes /\ r.ret = 0 /\ act /\ (Sequential => r.dcalls = 0)
@@ -71,18 +75,19 @@ Refused(r, act, classes) == r.err \in classes /\ r.ret = 0 /\ act /\ (Sequential
 TrCall ==
     /\ Ev("wcall") /\ Keep
     /\ LET r == Trace[l]
-       IN  CASE r.op = "write" ->
+       IN  CASE r.op # "reset" /\ failed -> AfterFailure
+             [] r.op = "write" ->
                   \/ Ok(r, Write(r.n), r.n)
                   \/ Faulted(r)
                   \/ Refused(r, WriteAfterClose, {"closed", "state", "optclosed", "injected", "other"})
              [] r.op = "flush" ->
                   \/ Ok(r, Flush, 0) /\ (Sequential => r.dec = accepted /\ r.decsame)
-                  \/ Faulted(r)
+                  \/ FlushFaulted(r)
                   \/ (r.err = "none" /\ ws = "closed" /\ UNCHANGED wvars)       \* Flush after Close: no-op
                   \/ (r.err # "none" /\ ws = "error" /\ UNCHANGED wvars)
              [] r.op = "close" ->
                   \/ Ok(r, Close, 0)
-                  \/ Faulted(r)
+                  \/ Faulted(r) \/ FlushFaulted(r)
                   \/ (r.err = "none" /\ CloseAgain /\ (Sequential => r.dcalls = 0))
                   \/ (r.err # "none" /\ ws = "error" /\ UNCHANGED wvars /\ (Sequential => r.dsink = 0))
              [] r.op = "readfrom" ->
@@ -110,6 +115,10 @@ TrEnd ==
            f == FrameNo(r.seg)
        IN  /\ r.seg <= Len(frames) + 1
            /\ r.clean                                  \* C17(7): no panic, no runaway, every call returned
+           \* C15: what reached the sink is a prefix of the fault-free output, and a sink failure has been
+           \* reported by some call - by Close at the latest
+           /\ r.sinkIsPrefix
+           /\ (r.injected /\ r.closecalled => failed)
            \* a frame closed without failure is complete, strictly valid and round-trips
            /\ f.closed =>
                  /\ r.status = "ok"
